@@ -8,6 +8,22 @@ SEQ_NOTE = ("Trusted base: go/ssa lowering (x/tools v0.50.0), this repository's 
             "and the models/stubs listed in the evidence file. Claims hold within the stated bounds only.")
 
 checks = {
+ "C01": dict(level="other",
+   text="Bounded symbolic execution of hseq.New/unfold + optics.NewLens/NewReflector/ForProduct1..9/ForSpectrum1..9 (real code incl. the unsafe pointer arithmetic, interpreted by a byte-offset memory model over go/types gc/amd64 layouts) on a corpus of 5 struct shapes plus a nine-type struct for the arities: every focusable field, by name and by type, Lens and Reflector; struct content between guard words and put values fully symbolic; Get/Put compared leaf by leaf with ordinary selectors (GetPut, PutGet, PutPut, same pointer). Shapes are a fixed corpus; values are universally quantified (mostly decided by term identity, see evidence).",
+   technique="symbolic execution of go/ssa with reflect/unsafe memory model + SMT",
+   ref="DESIGN.md §5 C01"),
+ "C02": dict(level="other",
+   text="Bounded symbolic execution of ~60 mismatching derivation requests (names, types, arities, containers, pointer embedding) and of Reflector calls with foreign dynamic argument types: each must panic at derivation / at the call and leave symbolic argument content unchanged; accepted optics go through the C01 exact-field oracle.",
+   technique="symbolic execution of go/ssa with reflect/unsafe memory model + SMT",
+   ref="DESIGN.md §5 C02"),
+ "C03": dict(level="other",
+   text="Symbolic execution of hseq.New/unfold/ForType/ForName/ForNameMaybe/New1..9/FMap/FMap1..9 over 8 corpus shapes against hand-written listings with compiler offsets (unsafe.Offsetof sums); FMapN pairing via uninterpreted functions. Structure is concrete (corpus); the reflect layer is a model over go/types.",
+   technique="symbolic execution of go/ssa with reflect model + SMT",
+   ref="DESIGN.md §5 C03"),
+ "C04": dict(level="other",
+   text="Bounded symbolic execution of Join (depth 1..3), Getter/Setter/BiMap (uninterpreted conversions), BiMapS/B/I/F, ForShape2..9, NewLensM, Iso and Morphism (all lists up to length 3/4 over {nil, 3 isos}) with fully symbolic contents of both structures between guard words; laws plus leaf-by-leaf 'nothing else changes'.",
+   technique="symbolic execution of go/ssa with reflect/unsafe memory model + SMT",
+   ref="DESIGN.md §5 C04"),
  "C14": dict(level="other",
    text="Bounded symbolic execution of trait/seq: every expression tree over the eight combinators up to depth 2 (quick) / 3 (thorough) with 0..2-element leaves is built from the real constructors and drained by the documented loop and by ForEach (failing at every position); element values and all predicate / mapping / flat-map behaviours are solver variables (uninterpreted functions), the result is compared with a reference list evaluator; source slices compared before/after.",
    technique="symbolic execution of go/ssa with forked expression shapes + SMT (QF_UFBV)",
@@ -20,6 +36,10 @@ checks = {
    text="Bounded symbolic execution of pure/eq, pure/ord, pure/monoid, pure/semigroup: the Eq/Ord laws and the transparency of ContraMap/From/monoid constructors are SMT queries over all 64-bit ints, all byte strings up to the length bound (2 quick / 3 thorough) and uninterpreted base functions. Bounded (string length), not a proof.",
    technique="symbolic execution of go/ssa + SMT (QF_UFBV), symbolic bounded strings",
    ref="DESIGN.md §5 C17"),
+ "C18": dict(level="other",
+   text="Bounded symbolic execution of the skip list (staged copy): inductive step (one Put/Get/Remove with symbolic arguments and unconstrained Int63 from every valid shape of <=2/3 nodes, heights 1..3, three orders) plus all histories of 2/3 operations from New() and all Get/Remove histories of 4/5 operations from populated shapes; representation invariant and reference-map agreement asserted after every step. The float comparison in mkNode is rewritten to an integer threshold only after the equivalence is proved by a floating-point SMT query (cvc5).",
+   technique="symbolic execution of go/ssa, inductive step over enumerated shapes + SMT (BV, FP lemma via cvc5)",
+   ref="DESIGN.md §5 C18"),
  "C19": dict(level="other",
    text="Bounded symbolic execution of internal/seq list and slice traits side by side with a reference: all Cons/Tail scripts up to the step bound over two live registers, all element values, uninterpreted non-commutative fold monoid with symbolic identity; persistence is checked by re-reading every live register after every step.",
    technique="symbolic execution of go/ssa with forked op scripts + SMT (QF_UFBV)",
